@@ -206,6 +206,25 @@ def run(tier, seed):
         info.update({'label': label, 'option_sets': len(osets), 'scripts': m['n'],
                      'format_calls': m['extra']['format_calls']})
         report.append(info)
+    # ---- multi-statement scripts
+    scripts = e2.script_texts(tier)
+    s_opts = base + sub1[:4]
+
+    def ev_script(text, acc, sqlparse):
+        for o in s_opts:
+            acc.extra['format_calls'] += 1
+            bad = check_case(sqlparse, text, o)
+            if bad:
+                acc.violation(e2.viol(bad[0], bad[1] + '|script', bad[2], text, {}, 'script', 1, o))
+        acc.case(text, True, outcome='script', sample={'script': text})
+    ms = e2.run_texts(scripts, ev_script, seed, setup=_setup)
+    viols += ms['viol']
+    vc.update(ms['viol_count'])
+    n_eval += ms['extra']['format_calls']
+    n_dist += ms['distinct']
+    samples += ms['samples'][:2]
+    report.append({'label': 'scripts of 2-3 seed statements x every separator filler x the three options + reindent sub-options',
+                   'scripts': ms['n'], 'option_sets': len(s_opts), 'format_calls': ms['extra']['format_calls']})
     cov = {
         'evaluations': n_eval, 'distinct_nontrivial': n_dist,
         'rule': 'cases as in C06 (seed derivations, <= d deviations) x the three named options, reindent with every '
